@@ -358,7 +358,21 @@ func genIP() *rapid.Generator[string] {
 		}
 		return a.String()
 	})
-	return rapid.OneOf(v4, v4, v6,
+	// an IPv4 literal with some octets spelled as ACE labels without a non-ASCII part
+	// ("xn--8-" decodes to "8"): not an address as written, an address once converted
+	v4ace := rapid.Custom(func(t *rapid.T) string {
+		var ls []string
+		aced := false
+		for i := 0; i < 4; i++ {
+			o := fmt.Sprint(oct.Draw(t, "o"))
+			if rapid.IntRange(0, 2).Draw(t, "ace") == 0 || (i == 3 && !aced) {
+				o, aced = "xn--"+o+"-", true
+			}
+			ls = append(ls, o)
+		}
+		return strings.Join(ls, ".")
+	})
+	return rapid.OneOf(v4, v4, v6, v4ace,
 		rapid.SampledFrom([]string{"127.0.0.1", "0.0.0.0", "::1", "::", "1.1.1.1", "8.8.8.8", "255.255.255.255", "fe80::1", "2001:db8::1", "::ffff:1.2.3.4", "1.2.3.4.", "1.2.3", "1.2.3.4.5", "01.2.3.4", "1.2.3.256", "[::1]", "fe80::1%eth0", "0x7f.0.0.1", "2130706433"}))
 }
 
